@@ -81,6 +81,15 @@ def run_slice(sx, nx, ny, nz):
         conds.append(sx.any([_close3(sx, o.center, c) for o in got]))
     sx.prove(sx.all(conds), f"get_slice({axis}, {index}) returns exactly the operations with that index along the axis",
              f"C19:slice:members:axis{axis}")
+    # asking is not changing: the same question again, another slice, the grid and the operation list are as before
+    again = stack.get_slice(axis, index)
+    other = stack.get_slice(2, 0)
+    dims = [[len(r) for r in t] for t in stack.grid]
+    sx.prove(len(again) == len(want) and all(a is b for a, b in zip(again, got)) and len(other) == nx * ny
+             and dims == [[nx] * ny] * nz and len(stack.operations) == nx * ny * nz,
+             f"get_slice({axis}, {index}) leaves the stack as it was (same answer again, tier 0 still {nx * ny} operations, grid "
+             f"{nz}x{ny}x{nx}, {nx * ny * nz} operations)", f"C19:slice:pure:axis{axis}",
+             info={"again": len(again), "tier0": len(other), "grid": dims, "operations": len(stack.operations)})
     return "slice"
 
 
